@@ -448,6 +448,10 @@ func New(dataShards, parityShards int, opts ...Option) (Encoder, error) {
 		if len(r.o.customMatrix) < parityShards {
 			return nil, errors.New("coding matrix must contain at least parityShards rows")
 		}
+		if r.totalShards <= 0 {
+			// dataShards+parityShards overflows.
+			return nil, errInvalidRowSize
+		}
 		r.m = make([][]byte, r.totalShards)
 		for i := 0; i < dataShards; i++ {
 			r.m[i] = make([]byte, dataShards)
